@@ -8,21 +8,23 @@ cd "$(dirname "$0")" || exit 2
 export GOFLAGS=-mod=mod GOPROXY=off GOSUMDB=off GOTOOLCHAIN=local
 mkdir -p bin evidence replays
 REPO="${VERIF_REPO:-/repo}"
+SFX=""
 if [ "$REPO" != "/repo" ]; then
-  sed "s#=> /repo#=> $REPO#" go.mod > bin/alt.mod; cp go.sum bin/alt.sum
-  export GOFLAGS="-mod=mod -modfile=$PWD/bin/alt.mod"
+  sed "s#=> /repo#=> $REPO#" go.mod > bin/alts.$$.mod; cp go.sum bin/alts.$$.sum
+  export GOFLAGS="-mod=mod -modfile=$PWD/bin/alts.$$.mod"
+  SFX=".alt.$$"
 fi
 TMP=$(mktemp -d /tmp/verif-sched.XXXXXX) || exit 2
-trap 'rm -rf "$TMP"' EXIT
+trap 'rm -rf "$TMP"; [ -n "$SFX" ] && rm -f bin/alts.$$.mod bin/alts.$$.sum bin/vcheck-sched$SFX bin/vcheck-sched-race$SFX' EXIT
 go build -o bin/instr ./cmd/instr || { echo "HARNESS-ERROR: cannot build the instrumenter"; exit 2; }
 if ! ./bin/instr -repo "$REPO" -out "$TMP" > "$TMP/overlay.json" 2> "$TMP/instr.log"; then
   echo "HARNESS-ERROR: instrumentation of /repo failed"; cat "$TMP/instr.log"; exit 2
 fi
-if ! go build -tags sched -overlay "$TMP/overlay.json" -o bin/vcheck-sched ./cmd/vcheck 2> "$TMP/build.log"; then
+if ! go build -tags sched -overlay "$TMP/overlay.json" -o bin/vcheck-sched$SFX ./cmd/vcheck 2> "$TMP/build.log"; then
   echo "HARNESS-ERROR: overlay build failed"; cat "$TMP/build.log"; exit 2
 fi
-if ! go build -race -tags sched -overlay "$TMP/overlay.json" -o bin/vcheck-sched-race ./cmd/vcheck 2> "$TMP/build-race.log"; then
+if ! go build -race -tags sched -overlay "$TMP/overlay.json" -o bin/vcheck-sched-race$SFX ./cmd/vcheck 2> "$TMP/build-race.log"; then
   echo "HARNESS-ERROR: overlay -race build failed"; cat "$TMP/build-race.log"; exit 2
 fi
 [ "$1" = "prebuild" ] && exit 0
-VERIF_REPO="$REPO" VERIF_INSTR_REPORT="$TMP/instr-report.json" VERIF_RACE_BIN="$PWD/bin/vcheck-sched-race" ./bin/vcheck-sched "$@"
+VERIF_REPO="$REPO" VERIF_INSTR_REPORT="$TMP/instr-report.json" VERIF_RACE_BIN="$PWD/bin/vcheck-sched-race$SFX" ./bin/vcheck-sched$SFX "$@"
